@@ -1,0 +1,72 @@
+// Copyright IBM Corp. 2013, 2026
+// SPDX-License-Identifier: MPL-2.0
+
+//go:build verif
+
+package raft
+
+// This file is compiled only with the "verif" build tag. It exports thin
+// wrappers around unexported, (nearly) pure pieces of the package so that an
+// external verification harness can drive them. It adds no behaviour.
+
+// VerifCommitment wraps the unexported commitment type.
+type VerifCommitment struct {
+	c  *commitment
+	ch chan struct{}
+}
+
+// VerifNewCommitment wraps newCommitment.
+func VerifNewCommitment(configuration Configuration, startIndex uint64) *VerifCommitment {
+	ch := make(chan struct{}, 1)
+	return &VerifCommitment{c: newCommitment(ch, configuration, startIndex), ch: ch}
+}
+
+// Match wraps commitment.match.
+func (v *VerifCommitment) Match(server ServerID, matchIndex uint64) {
+	v.c.match(server, matchIndex)
+}
+
+// SetConfiguration wraps commitment.setConfiguration.
+func (v *VerifCommitment) SetConfiguration(configuration Configuration) {
+	v.c.setConfiguration(configuration)
+}
+
+// CommitIndex wraps commitment.getCommitIndex.
+func (v *VerifCommitment) CommitIndex() uint64 {
+	return v.c.getCommitIndex()
+}
+
+// Notified reports (and clears) whether commitCh was signalled.
+func (v *VerifCommitment) Notified() bool {
+	return drainNotifyCh(v.ch)
+}
+
+// VerifNextConfiguration wraps nextConfiguration.
+func VerifNextConfiguration(current Configuration, currentIndex uint64,
+	command ConfigurationChangeCommand, id ServerID, addr ServerAddress, prevIndex uint64) (Configuration, error) {
+	return nextConfiguration(current, currentIndex, configurationChangeRequest{
+		command:       command,
+		serverID:      id,
+		serverAddress: addr,
+		prevIndex:     prevIndex,
+	})
+}
+
+// VerifCheckConfiguration wraps checkConfiguration.
+func VerifCheckConfiguration(configuration Configuration) error {
+	return checkConfiguration(configuration)
+}
+
+// VerifCompactLogsWithTrailing wraps compactLogsWithTrailing on a bare Raft
+// value that only has a log store and a logger.
+func VerifCompactLogsWithTrailing(logs LogStore, snapIdx, lastLogIdx, trailingLogs uint64) error {
+	conf := DefaultConfig()
+	conf.LogLevel = "OFF"
+	r := &Raft{logs: logs, logger: conf.getOrCreateLogger()}
+	return r.compactLogsWithTrailing(snapIdx, lastLogIdx, trailingLogs)
+}
+
+// VerifBackoff wraps backoff.
+func VerifBackoff(round, limit uint64) int64 {
+	return int64(backoff(failureWait, round, limit))
+}
